@@ -644,7 +644,7 @@ func (env *Env) call(x *Expr) Val {
 		if !ok {
 			efail("present() on non-map")
 		}
-		return boolVal(e.mapPresent(st, m, Val{T: mt.Key(), L: k.L}))
+		return boolVal(mkAnd(mkNot(mkEq(m.term(), "nil")), e.mapPresent(st, m, Val{T: mt.Key(), L: k.L})))
 	case "held":
 		a := env.eval(x.Args[0])
 		// argument is a mutex value reached through a field: we need its location; re-evaluate as location
@@ -685,6 +685,17 @@ func (env *Env) call(x *Expr) Val {
 			return intVal(g)
 		}
 		return intVal("0")
+	case "boxedas":
+		// boxedas(x, #T): x was (syntactically) produced by converting a value of static type T to an interface
+		a := env.eval(x.Args[0])
+		if x.Args[1].Op != "type" {
+			efail("boxedas(x, #T)")
+		}
+		t := env.resolveType(x.Args[1].Name)
+		if r := a.ref(0); r != nil && r.Box != nil && types.Identical(r.Box.T, t) {
+			return boolVal("true")
+		}
+		return boolVal("false")
 	case "isfresh":
 		// isfresh(p): p points to an object allocated by the current activation
 		a := env.eval(x.Args[0])
